@@ -11,7 +11,7 @@ META = {
     "rule": "K1 every public method of Analysis reaches the database only through with_db, whose body is Cancelled::catch(..); "
             "K2 Analysis holds a salsa::Snapshot and has no &mut method, AnalysisHost::apply_change takes &mut self and requests "
             "cancellation before writing; K3 the server maps a Cancelled error to REQUEST_CANCELLED before any other mapping. "
-            "One obligation per Analysis method / clause. K4 no public Analysis method discards a Cancelled error (unwrap_or*, ok(), an Err arm that reaches Ok(..)). K5/K6 = C11 H6/H7; K7 no build profile sets panic = abort; K10 = C09 Y6 (the inference groups are complete, else two groups ask for each other: a cycle). K9 = C10 Q10 (no cycle of the query graph can happen: snapshots taken after a change that closes an import cycle panicked). K8 = C10 Q9 (no recursive walk descends twice into one child: a 2^depth loop has no cancellation point, the change never completes).",
+            "One obligation per Analysis method / clause. K4 no public Analysis method discards a Cancelled error (unwrap_or*, ok(), an Err arm that reaches Ok(..)). K5/K6 = C11 H6/H7; K7 no build profile sets panic = abort; K10 = C09 Y6 (the inference groups are complete, else two groups ask for each other: a cycle). K9 = C10 Q10 (no cycle of the query graph can happen: snapshots taken after a change that closes an import cycle panicked). K8 = C10 Q9 (no recursive walk descends twice into one child: a 2^depth loop has no cancellation point, the change never completes). K12 = C10 Q14, K13 = C10 Q15 (an expression is inferred once; a variable is not unified with its own class: both were 2^n loops without a cancellation point). K14 a lexer callback that can scan to the end of the input remembers the failure (else lexing is quadratic: 146 s for 1 MB of quotes, a step no cancellation can interrupt).",
     "explanation": "Decides the narrow structural clauses that make cancellation surface as Err(Cancelled) rather than as an "
                    "unwinding panic and that make snapshot isolation salsa's job. The interleaving clauses of C12 (exactly the "
                    "pre-change answer or cancellation, prompt completion) quantify over schedules and are not decided.",
@@ -21,6 +21,55 @@ META = {
 }
 
 AN = "ide::ide::Analysis"
+
+
+def failed_scan_is_remembered(F, res, rule="K14"):
+    """K14: lexing is linear. The string callback scans the rest of the input for the closing quote; when there is none the quote
+    becomes an ERROR token and lexing resumes behind it, so `"\\"\\"\\"..` scanned to the end once per quote (146 s for 1 MB, in a step
+    without a cancellation point: the change that follows waits that long). A callback of the generated lexer that walks the
+    remainder in a loop and can leave it by exhaustion must record that in the lexer's state, and the walk must sit behind a test of
+    that state."""
+    n, bad = 0, []
+    for p_, f in sorted(F.fns.items()):
+        if not p_.startswith("syntax::lexer::") or not f.blocks or "{closure" in p_:
+            continue
+        if not any(FL.short(callee(t) or callee_def(t) or "").endswith("Lexer::remainder") for _b, t in f.calls()):
+            continue
+        d = FL.Defs(f)
+        for hd in sorted({h for _t, h in f.back_edges()}):
+            loop = set()
+            for tl, h2 in f.back_edges():
+                if h2 == hd:
+                    loop |= f.natural_loop(tl, hd)
+            # exits by exhaustion: the None edge of a next() in the loop that leaves the loop
+            exits = []
+            for b, t in f.calls():
+                if b in loop and FL.short(callee(t) or callee_def(t) or "").endswith("::next"):
+                    tt = f.term(t["target"]) if t.get("target") is not None else {}
+                    if tt.get("k") == "switch":
+                        exits += [x for v, x in tt["targets"] if int(v) == 0 and x not in loop]
+            if not exits:
+                continue
+            n += 1
+            written = set()
+            for x in exits:
+                for b2 in [x] + sorted(bb for bb in f.reachable() if f.can_reach(x, [bb])):
+                    for s_ in f.blocks[b2]["stmts"]:
+                        if s_["k"] == "assign" and any(isinstance(e, dict) and e.get("n") == "extras" for e in s_["place"]["p"]):
+                            written.add(tuple(e.get("n") for e in s_["place"]["p"] if isinstance(e, dict) and "f" in e))
+            tested = set()
+            for g in FL.gates(F, f, [hd], d):
+                o = g.get("origin") or {}
+                if o.get("k") == "field" and g.get("allowed") in ([False], [0]):
+                    names = tuple(e.get("n") for e in o.get("proj", []) if isinstance(e, dict) and "f" in e)
+                    if "extras" in names:
+                        tested.add(names)
+            if not (written & tested):
+                bad.append("%s: the loop at line %s can run to the end of the input again for every later quote (state written on exhaustion: %s, tested before "
+                           "the walk: %s)" % (FL.short(p_), f.blocks[hd]["term"].get("ln", f.line), sorted(written), sorted(tested)))
+    res.ob(rule, "lexer/failed-scan-remembered", "a lexer callback that can walk the remainder to its end records the failure in the lexer's state and does "
+           "not walk again while that state is set", n > 0 and not bad, where="crates/syntax/src/lexer.rs",
+           how="%d scanning loop(s), each behind a test of the state its exhaustion sets" % n if n and not bad else ("; ".join(bad) or "no scanning loop found"))
 
 
 def run(F, res, tier):
@@ -123,6 +172,9 @@ def run(F, res, tier):
     # a walk that doubles with every level of nesting never reaches a cancellation point: the change waits for it for ever
     from rules import c10 as _c10
     _c10.no_double_descent(F, res, rule="K8")
+    failed_scan_is_remembered(F, res)
+    _c10.inference_is_memoised(F, res, rule="K12")
+    _c10.same_class_is_a_no_op(F, res, rule="K13")
     # never a panic: a query cycle met while salsa validates a memo after a change panics on every later snapshot
     _c10.cycles_are_cut(F, res, rule="K9")
     from rules import c09 as _c09
